@@ -322,4 +322,20 @@ var plans = map[string]Plan{
 			{Name: "c15", Run: "^TestC15$", Rapid: true, Shards: [2]int{14, 16}, Checks: [2]int{1200, 12000}, Lab: &LabSpec{Kind: "redact", Programs: [2]int{16, 120}}},
 		},
 	},
+	"C10": {
+		Level: "exploration",
+		Rule: "cases are (Thrift sources, option set, schedule): programs from the constructive generator (files renamed to contested names in two thirds of them) and a raw-text collision generator (3-8 includes named like packages the generated code imports - fmt, fmt2, bytes, wire, stream, zapcore, ptr, strconv, errors ... -, Go keywords, same base name in different directories, repeated definition names across files, helper-name collisions, constants of map / set / struct type, services in several files); a complete grid of 10 hand-written programs x 13 option sets; x schedules: R fresh processes of the real CLI (own map hash seed each), in-process repetitions, distinct resolution orders through compile.CompileWithLinkOrder. " +
+			"Oracle (metamorphic): identical success/failure, identical set of output paths, identical bytes of every file, identical GenerateServiceRequest after canonical renumbering of module / service ids, across all runs of the same sources and options. " +
+			"Non-trivial: >=3 includes or an alias / helper collision. Distinct: SHA-256 of the case JSON.",
+		Assumptions: []string{
+			"error texts are never compared; the plugin request is captured by an in-process ServiceGenerator passed through gen.Options.Plugin",
+			"map-order dependence is sampled (each process / repetition draws new hash seeds); the link-order hook forces distinct resolution orders deterministically",
+		},
+		Prebuild: []Prebuild{{Name: "thriftrw", Pkg: "go.uber.org/thriftrw"}},
+		Units: []Unit{
+			{Name: "cli", Pkg: "./checks/c10", Run: "^TestCLI$", Rapid: true, Shards: [2]int{10, 12}, Checks: [2]int{20, 200}},
+			{Name: "inproc", Pkg: "./checks/c10", Run: "^TestInProcess$", Rapid: true, Shards: [2]int{5, 4}, Checks: [2]int{30, 300}},
+			{Name: "fixed", Pkg: "./checks/c10", Run: "^TestFixed$", Shards: [2]int{1, 4}, Weight: 4},
+		},
+	},
 }
